@@ -26,7 +26,7 @@ INDEX_PATTERNS = {
     "mixed": [-1, 5, 5, 6],
     "zero-based": [0, 1, 2, 3],
 }
-VALUES = ["0.0", "1.0e-10*Tgas", "Tgas>10.0 ? 1.0 : 2.0", "2.5e-9 * sqrt(Tgas/300.0)"]
+VALUES = ["0.0", "1.0e-10*Tgas", "Tgas>10.0 ? 1.0 : 2.0", "2.5e-9 * sqrt(Tgas/300.0)", 0.0]  # the last one a number, not text (the bundled ism example switches a reaction off this way)
 ODE_MODS = [
     {},
     {"H2": {"factors": ["f"], "reactants": [["H", "H"]]}},
@@ -109,7 +109,7 @@ def judge(case, base_obs, mod_obs, label):
         return viols
     for i, ((i0, g0, e0), (i1, g1, e1)) in enumerate(zip(s0, s1)):
         if eff[i] in keys:
-            want = " ".join(keys[eff[i]].split())
+            want = " ".join(str(keys[eff[i]]).split())
             if e1 != want or g1 is not None:
                 viols.append((f"C13:rate-not-replaced:{case['pattern']}", f"{label}: reaction {i} (index {eff[i]}) should have k = {want!r}, rendered guard={g1!r} expr={e1!r}"))
         else:
@@ -220,7 +220,7 @@ def run_paths(case):
         import shlex
 
         st, o, err, exc = run_command("init", " ".join(shlex.quote(a) for a in args), proj)
-        vals = list(case["rate_modifier"].values())
+        vals = [str(v) for v in case["rate_modifier"].values()]
         vclass = "value-with-colon" if any(":" in v for v in vals) else "value-with-comma" if any("," in v for v in vals) else "plain"
         if exc is not None:
             viols.append((f"C13:init-error:{type(exc).__name__}:{vclass}", f"{label}: init raised {exc!r}", dict(case, path="init")))
